@@ -288,10 +288,17 @@ class Synth(object):
             eid = self.id()
             evt[e['numb']] = eid
             label = '%s%s%d' % (kl, '_A' if sm['kind'] == 'class' else '', e['numb'])
+            # a polymorphic event: BridgePoint keeps the star in the derived label ('star'); 'plain' leaves it out
+            if e.get('poly') == 'star':
+                label += '*'
             self.row('SM_EVT', SMevt_ID=eid, SM_ID=smid, SMspd_ID=spd, Numb=e['numb'], Mning=e['mning'], Is_Lbl_U=0, Unq_Lbl='',
                      Drv_Lbl=label, Descrip='')
-            self.row('SM_SEVT', SMevt_ID=eid, SM_ID=smid, SMspd_ID=spd)
-            self.row('SM_LEVT', SMevt_ID=eid, SM_ID=smid, SMspd_ID=spd)
+            if e.get('poly'):
+                self.row('SM_PEVT', SMevt_ID=eid, SM_ID=smid, SMspd_ID=spd, localClassName=c.get('name', kl), localClassKL=kl,
+                         localEventMning=e['mning'])
+            else:
+                self.row('SM_SEVT', SMevt_ID=eid, SM_ID=smid, SMspd_ID=spd)
+                self.row('SM_LEVT', SMevt_ID=eid, SM_ID=smid, SMspd_ID=spd)
             prev = 0
             for di in e.get('data', []):
                 did = self.id()
